@@ -383,21 +383,26 @@ def suText (su : Option (List Nat)) : Str :=
 /-- `su_size`: `strlen(su_buf)` (0 for an exact number) -/
 def suSize (su : Option (List Nat)) : Nat := match su with | none => 0 | some d => d.length
 
+/-- `total_chars` of format_text_decimal (terminator included) -/
+def decimalChars (neg : Bool) (digits : List Nat) (su : Option (List Nat)) (scale : Nat) : Nat :=
+  (if neg then 1 else 0) + (if digits.length ≤ scale then scale + 1 else digits.length)
+    + (if scale = 0 then 0 else 1) + (if suSize su > 0 then suSize su + 2 else 0) + 1
+
+/-- the characters format_text_decimal writes between the sign and the su -/
+def decimalBody (digits : List Nat) (scale : Nat) : Str :=
+  if digits.length ≤ scale then
+    -- whole_digits <= 0: "0." and leading zeroes
+    UCHAR_0 :: UCHAR_DECIMAL :: (List.replicate (scale - digits.length) UCHAR_0 ++ digitChars digits)
+  else
+    digitChars (digits.take (digits.length - scale)) ++ (if scale > 0 then [UCHAR_DECIMAL] else [])
+      ++ digitChars (digits.drop (digits.length - scale))
+
+def signChars (neg : Bool) : Str := if neg then [UCHAR_MINUS] else []
+
 /-- `format_text_decimal`; `none` = CIF_ARGUMENT_ERROR (text longer than a line).  Requires `scale ≥ 0`. -/
 def formatDecimal (neg : Bool) (digits : List Nat) (su : Option (List Nat)) (scale : Nat) : Option Str :=
-  let valDigits := digits.length
-  let totalChars := (if neg then 1 else 0) + (if valDigits ≤ scale then scale + 1 else valDigits)
-      + (if scale = 0 then 0 else 1) + (if suSize su > 0 then suSize su + 2 else 0) + 1
-  if totalChars ≤ CIF_LINE_LENGTH + 1 then
-    let sign : Str := if neg then [UCHAR_MINUS] else []
-    let body : Str :=
-      if valDigits ≤ scale then
-        -- whole_digits <= 0: "0." and leading zeroes
-        UCHAR_0 :: UCHAR_DECIMAL :: (List.replicate (scale - valDigits) UCHAR_0 ++ digitChars digits)
-      else
-        let whole := valDigits - scale
-        digitChars (digits.take whole) ++ (if scale > 0 then [UCHAR_DECIMAL] else []) ++ digitChars (digits.drop whole)
-    some (sign ++ body ++ suText su)
+  if decimalChars neg digits su scale ≤ CIF_LINE_LENGTH + 1 then
+    some (signChars neg ++ decimalBody digits scale ++ suText su)
   else none
 
 /-- `exponent_digits` decimal digits of `n`, zero padded (the loop `*(c + i) = (msp % 10) + '0'; msp /= 10`) -/
@@ -405,22 +410,33 @@ def padDigits : Nat → Nat → Str
   | 0, _ => []
   | k + 1, n => padDigits k (n / 10) ++ [n % 10 + UCHAR_0]
 
+/-- `most_significant_place` of format_text_sci -/
+def sciMsp (digits : List Nat) (scale : Int) : Int :=
+  ((if digits.length > 0 then digits.length - 1 else 0 : Nat) : Int) - scale
+
+/-- `exponent_digits`: `((int) log10(abs(msp) + 0.5)) + 1`, at least 2 -/
+def sciExpDigits (digits : List Nat) (scale : Int) : Nat := max 2 (decDigits (sciMsp digits scale).natAbs).length
+
+/-- `total_chars` of format_text_sci -/
+def sciChars (neg : Bool) (digits : List Nat) (su : Option (List Nat)) (scale : Int) : Nat :=
+  (if neg then 1 else 0) + (if digits.length > 1 then digits.length + 1 else 1) + sciExpDigits digits scale + 2
+    + (if suSize su > 0 then suSize su + 2 else 0) + 1
+
+/-- the value digits of format_text_sci: first digit, and the rest behind a point -/
+def sciMant (digits : List Nat) : Str :=
+  match digits with
+  | [] => [UCHAR_0]
+  | d :: rest => (d + UCHAR_0) :: (if rest = [] then [] else UCHAR_DECIMAL :: digitChars rest)
+
+/-- the exponent field `e±dd` -/
+def sciExp (digits : List Nat) (scale : Int) : Str :=
+  UCHAR_e :: (if sciMsp digits scale < 0 then UCHAR_MINUS else UCHAR_PLUS)
+    :: padDigits (sciExpDigits digits scale) (sciMsp digits scale).natAbs
+
 /-- `format_text_sci`; `none` = CIF_ARGUMENT_ERROR -/
 def formatSci (neg : Bool) (digits : List Nat) (su : Option (List Nat)) (scale : Int) : Option Str :=
-  let valDigits := digits.length
-  let msp : Int := ((if valDigits > 0 then valDigits - 1 else 0 : Nat) : Int) - scale
-  -- ((int) log10(abs(msp) + 0.5)) + 1, at least 2
-  let expDigits := max 2 (decDigits msp.natAbs).length
-  let totalChars := (if neg then 1 else 0) + (if valDigits > 1 then valDigits + 1 else 1) + expDigits + 2
-      + (if suSize su > 0 then suSize su + 2 else 0) + 1
-  if totalChars ≤ CIF_LINE_LENGTH + 1 then
-    let sign : Str := if neg then [UCHAR_MINUS] else []
-    let mant : Str :=
-      match digits with
-      | [] => [UCHAR_0]
-      | d :: rest => (d + UCHAR_0) :: (if rest = [] then [] else UCHAR_DECIMAL :: digitChars rest)
-    let esign := if msp < 0 then UCHAR_MINUS else UCHAR_PLUS
-    some (sign ++ mant ++ UCHAR_e :: esign :: padDigits expDigits msp.natAbs ++ suText su)
+  if sciChars neg digits su scale ≤ CIF_LINE_LENGTH + 1 then
+    some (signChars neg ++ sciMant digits ++ sciExp digits scale ++ suText su)
   else none
 
 /-! ### cif_value_init_numb / cif_value_autoinit_numb
@@ -487,24 +503,31 @@ def sciDigits (num den : Nat) (p : Nat) : Nat × Int :=
   let z := rhe n' d'
   if z = pow10 p then (pow10 (p - 1), x + 1) else (z, x)
 
+/-- the scale `cif_value_autoinit_numb` chooses for a non-zero su: format the su with as many significant digits as the
+    rule has (`sprintf("%.*e")`), take the scale of its last digit, and one less if the digits exceed the rule -/
+def autoScale (su : Bin) (suRule : Nat) : Int :=
+  -- (int) log10(su_rule + 0.5) + 1
+  if (sciDigits (ratOfBin su.m su.e).1 (ratOfBin su.m su.e).2 (decDigits suRule).length).1 > suRule then
+    -- reduce the scale by 1 if the su needs to be rounded to fewer digits
+    (-(sciDigits (ratOfBin su.m su.e).1 (ratOfBin su.m su.e).2 (decDigits suRule).length).2
+        + ((decDigits suRule).length : Nat) - 1) - 1
+  else
+    -(sciDigits (ratOfBin su.m su.e).1 (ratOfBin su.m su.e).2 (decDigits suRule).length).2
+        + ((decDigits suRule).length : Nat) - 1
+
+/-- the scale chosen for an exact number (`su == 0`) -/
+def exactScale (val : Bin) (msp : Int) : Int :=
+  if (fracBits val).2 ≤ ((fracBits val).1 : Nat) then ((fracBits val).1 : Nat) - (fracBits val).2
+  else if msp < (DBL_DIG : Nat) then 0 else ((DBL_DIG : Nat) - 1) - msp
+
 /-- `cif_value_autoinit_numb(numb, val, su, su_rule)` -/
 def autoinitNumb (val su : Bin) (suRule : Nat) (msp : Int) : Except Code V :=
   if (su.neg ∧ su.m ≠ 0) ∨ suRule < 2 then .error CIF_ARGUMENT_ERROR
   else if su.m = 0 then
     -- an exact number
-    let (bitCount, exponent) := fracBits val
-    let scale : Int :=
-      if exponent ≤ (bitCount : Nat) then (bitCount : Nat) - exponent
-      else if msp < (DBL_DIG : Nat) then 0 else ((DBL_DIG : Nat) - 1) - msp
-    initNumb val su scale DEFAULT_MAX_LEAD_ZEROES msp
+    initNumb val su (exactScale val msp) DEFAULT_MAX_LEAD_ZEROES msp
   else
-    let ruleDigits := (decDigits suRule).length               -- (int) log10(su_rule + 0.5) + 1
-    let (sn, sd) := ratOfBin su.m su.e
-    let (suDigits, x) := sciDigits sn sd ruleDigits
-    let scale0 : Int := -x + (ruleDigits : Nat) - 1
-    -- reduce the scale by 1 if the su needs to be rounded to fewer digits
-    let scale := if suDigits > suRule then scale0 - 1 else scale0
-    initNumb val su scale DEFAULT_MAX_LEAD_ZEROES msp
+    initNumb val su (autoScale su suRule) DEFAULT_MAX_LEAD_ZEROES msp
 
 /-! ### cif_value_get_number / cif_value_get_su -/
 
